@@ -246,6 +246,26 @@ def gen_wf(rng, op):
     q['bytes'] = in_header(total, op, hdr['unique'], hdr['nodeid'], hdr['uid'], hdr['gid'], hdr['pid']) + body + tb
     kind = rng.choice(kinds) if rng.random() < 0.75 else kinds[0]
     q['fs'] = gen_fs(rng, kind, op, fields)
+    if q['fs'][0] == 'dirents' and q['fs'][1] and rng.random() < 0.8:
+        # requested size around an entry boundary of this listing (every residue mod 8 on both sides)
+        plus = 128 if op == 44 else 0
+        k = rng.randrange(0, len(q['fs'][1]) + 1)
+        tot = sum(plus + ((24 + len(d[3]) + 7) // 8) * 8 for d in q['fs'][1][:k])
+        nxt = (plus + 24 + len(q['fs'][1][k][3])) if k < len(q['fs'][1]) else 0
+        fields['size'] = max(0, tot + rng.choice([0, nxt]) + rng.randrange(-9, 10))
+        body = enc_struct(sname, fields, COMPAT.get(sname))
+        q['bytes'] = in_header(40 + len(body), op, hdr['unique'], hdr['nodeid'], hdr['uid'], hdr['gid'], hdr['pid']) + body
+    return q
+
+def gen_big_write(rng, payload_len):
+    """a well-formed WRITE whose payload is a constant run (so the case stays small in Coq) of the given length"""
+    q = gen_wf(rng, 16)
+    q['payload'] = bytes([rng.randrange(1, 256)]) * payload_len
+    q['fields']['size'] = payload_len
+    h = q['hdr']
+    body = enc_struct('fuse_write_in', q['fields'])
+    q['bytes'] = in_header(40 + len(body) + payload_len, 16, h['unique'], h['nodeid'], h['uid'], h['gid'], h['pid']) + body + q['payload']
+    q['fs'] = ('count', payload_len)
     return q
 
 def reply_cap_for(rng, q):
@@ -351,7 +371,7 @@ def coq_call(s):
     args = []
     for a in (rest.split('|') if rest != '' else []):
         if a.startswith('n:'): args.append('AN %s' % a[2:])
-        elif a.startswith('b:'): args.append('AB (unhex "%s")' % a[2:])
+        elif a.startswith('b:'): args.append('AB %s' % hexN(bytes.fromhex(a[2:])))
         elif a.startswith('o:'): args.append('AO %s' % ('None' if a[2:] == '-' else '(Some %s)' % a[2:]))
         elif a == 't': args.append('ABool true')
         elif a == 'f': args.append('ABool false')
@@ -459,3 +479,23 @@ def model_vs_impl(tag, cases, obs, mask, broken, model_fn='handle', header=None)
     fails, errs = coq_check_cases(tag, header or HEADER, exprs, shard=60)
     if errs: broken.append({'kind': 'correspondence', 'name': 'Coq evaluation of the server model failed', 'log': errs[0]})
     return [idx[j] for j in fails]
+
+
+def replay(prop, path, binname='codec'):
+    """./check Cxx --replay file: re-run the recorded failing request(s) on the current /repo and show what happens.
+    exit 1 if the recorded observation reproduces."""
+    d = json.load(open(path))
+    items = [f.get('shrunk_input') or f.get('input') for f in d.get('failing', [])] + [b.get('case') for b in d.get('broken', []) if isinstance(b, dict)]
+    items = [i for i in items if i and i.get('harness_line')]
+    if not items:
+        print(json.dumps(d, indent=1)[:3000]); print('replay: no concrete input recorded in this file (a proof obligation or tie broke; see "broken")'); return 1
+    ok, out, bindir = cargo_build([binname])
+    if not ok: print(out[-2000:]); return 2
+    rc, out = run([os.path.join(bindir, binname)], input='\n'.join(i['harness_line'] for i in items) + '\n', timeout=300)
+    same = 0
+    for i, line in zip(items, [l for l in out.split('\n') if l.startswith('id=')]):
+        o = parse_obs(line); rec = i.get('observed') or {}
+        print('request:', i['harness_line'][:400]); print('now     :', line[:600]); print('recorded:', json.dumps(rec)[:600])
+        if rec and rec.get('res') == o['res'] and rec.get('calls') == o['calls'] and rec.get('packets') == [p.hex() for p in o['packets']]: same += 1
+    print('replay: %d of %d recorded observations reproduce on the current tree' % (same, len(items)))
+    return 1 if same else 0
